@@ -13,13 +13,13 @@ import (
 
 func cmpRules() []*Rule {
 	return []*Rule{
-		{ID: "CMP-matrix", Props: []string{"C11", "C03", "C13"}, Min: 25,
+		{ID: "CMP-matrix", Props: []string{"C11", "C03", "C13", "C02"}, Min: 25,
 			Doc: "compare() evaluated over the 5×5 storage classes: the 20 cross-class cells are SQLite's constants (NULL < numeric < text < blob), the diagonal delegates to the right three-way helper with the operands in order",
 			Run: runCmpMatrix},
-		{ID: "CMP-3way", Props: []string{"C11", "C03", "C13"}, Min: 8,
+		{ID: "CMP-3way", Props: []string{"C11", "C03", "C13", "C02"}, Min: 8,
 			Doc: "the three-way helpers: sign table over Order(a,b) is (−1,0,+1) and the operands are touched only through comparisons; the int/real comparison is exact (integer compared as an integer, guarded conversion)",
 			Run: runCmp3way},
-		{ID: "CMP-search", Props: []string{"C11", "C03", "C13"}, Min: 12,
+		{ID: "CMP-search", Props: []string{"C11", "C03", "C13", "C02"}, Min: 12,
 			Doc: "Search and Equals loop bodies over (record shorter, sign of compare, Desc): the required outcome table; key first, record second; collation = the column's own or the default, per column",
 			Run: runCmpSearch},
 		{ID: "COLL", Props: []string{"C11", "C03", "C13", "C02"}, Min: 3,
